@@ -260,6 +260,10 @@ def run(ctx):
     delete_table(ctx, program, "R16.8")
 
     # R16.5 snapshots are copies ----------------------------------------------------------------------------------------
+    ctx.rule("R16.9", "reading a dotted name: a Python variable (local, then global) comes before a pyscript function/service of that name, and that before the state "
+             "variable or attribute of that name; a one-dot name nothing else defines is read from the state machine, a two-dot one only if the attribute exists", floor=12)
+    name_precedence_table(ctx, program, "R16.9")
+
     ctx.rule("R16.5", "values handed to scripts are copies: StateVal copies the attribute mapping, getattr/delete copy before changing", floor=4)
     new = program.func("state.py::StateVal.__new__")
     from ..flow import FlowPolicy as _FP0, exits as _exits0, run_flow as _run0
@@ -369,3 +373,58 @@ def run(ctx):
         "rules.  Routing of assignments by dot count via schematic evaluation of recurse_assign; exception types, copies, keyword collision and lookup order structurally. "
         "Not decided: agreement with Home Assistant's state machine over operation histories."
     )
+
+
+class _PrecedencePolicy(HandlerPolicy):
+    """ast_name interpreted with the two outside tables (functions/services, state machine) fixed per case."""
+
+    def __init__(self, program, func, state):
+        super().__init__(program, opaque_methods=("call_func",))
+        self.plain_ast_name = True
+        self.func, self.state = func, state
+
+    def call(self, interp, node, fname, fval, args, kwargs, cfg, out):
+        if fname == "Function.get":
+            return [(cfg, self.func if self.func is not None else NONE)]
+        if fname == "State.exist":
+            return [(cfg, Const(self.state is not None))]
+        if fname == "State.get":
+            # State.get raises NameError for an entity the state machine does not have
+            if self.state is None:
+                out.add("raise", cfg.set("$exc", ExcV("NameError", "State.get")))
+                return []
+            return [(cfg, self.state)]
+        return super().call(interp, node, fname, fval, args, kwargs, cfg, out)
+
+
+def name_precedence_table(ctx, program, rid):
+    from ..schematic import MODULE_SCOPE
+    fn = program.func("eval.py::AstEval.ast_name")
+    L, G, F, S = Sym(("scope", "local")), Sym(("scope", "global")), ObjV("function_or_service", "function"), ObjV("state_value", "StateVal")
+    excl = const_set(program.module_const("eval.py", "BUILTIN_EXCLUDE")) or set()
+    n = 0
+    for name in ("dom.ent", "dom.ent.attr"):
+        for loc, glob, func, state in itertools.product((None, L), (None, G), (None, F), (None, S)):
+            want = next((v for v in (loc, glob, func, state) if v is not None), "NameError")
+            pol = _PrecedencePolicy(program, func, state)
+            pol.mod_consts["BUILTIN_EXCLUDE"] = Const(frozenset(excl))
+            h = dict(MODULE_SCOPE)
+            h["self.sym_table"] = DictV(((Const("$symtab"), Const("local")),) + (((Const(name), loc),) if loc is not None else ()))
+            h["self.local_sym_table"] = DictV(())
+            h["self.global_sym_table"] = DictV(((Const("$symtab"), Const("global")),) + (((Const(name), glob),) if glob is not None else ()))
+            h["self.curr_func"] = Const(None)
+            node = NodeV("Name", {"id": Const(name), "ctx": NodeV("Load", {}, "ctx")}, f"name:{name}")
+            out = run_handler(program, node, pol, method="ast_name", heap=h)
+            got = set()
+            for c in out.get("return"):
+                v = c.env.get("$ret")
+                got.add("NameError" if isinstance(v, App) and v.op == "new" and "EvalName" in repr(v) else v)
+            for c in out.get("raise"):
+                got.add(getattr(c.env.get("$exc"), "cls", "?"))
+            have = [t for t, v in (("a local variable", loc), ("a global variable", glob), ("a function/service", func), ("a state " + ("attribute" if name.count(".") == 2 else "variable"), state)) if v is not None]
+            label = f"`{name}` defined as " + (", ".join(have) if have else "nothing")
+            n += 1
+            ctx.check(got == {want}, rid, "eval.py::AstEval.ast_name", label,
+                      msg=f"reading {label} gives {sorted(map(repr, got))}, specified {want!r} (Python variables, then functions and services, then state)",
+                      key=f"precedence {name.count('.')} dots {'L' if loc else '-'}{'G' if glob else '-'}{'F' if func else '-'}{'S' if state else '-'}", node=fn, rel="eval.py")
+    return n
